@@ -351,6 +351,10 @@ def run(prog: Program, res: Result) -> None:  # noqa: PLR0912, PLR0915
     from checks.shared import check_parser_trim_threading
 
     check_parser_trim_threading(prog, res, "C01.R10")
+    res.rule("C01.R14", "`render 'p' for items` renders each item in its own isolated scope: the context is re-created inside the item loop, so counters, cycles, captures and assigns of one item never reach the next (shared with C07.R8)")
+    from checks.shared import check_render_for_item_isolation
+
+    check_render_for_item_isolation(prog, res, "C01.R14")
 
     res.rule("C01.R13", "the Liquid string form of a value does not depend on where it is printed: every definition of to_liquid_string (the one used by output statements and filters, and the private copy used for `${…}` interpolation in template strings) is the same function after normalisation")
     _stringifier_twins_rule(prog, res)
